@@ -1272,6 +1272,11 @@ func runC16(p *core.Prog, r *core.Report) {
 			if prefix == nil {
 				nPlain++
 				r.Check(subjIsInput, "C16-R3", c+": plain fallback", p.Pos(ret.Pos()), "ShellEscape(input)", "the fallback does not return ShellEscape(input) unchanged: it escapes "+subject.String())
+				// …and is not taken where the input is known to start with the prefix: "~/" followed by nothing is still a
+				// tilde path (the shell must see ~/ unquoted)
+				if subjIsInput && rc.path != nil {
+					r.Check(!startsWith, "C16-R3", c+": plain fallback only without the tilde prefix", p.Pos(ret.Pos()), "not reached on a path where the input starts with \"~/\"", "the whole input is quoted on a path where it is known to start with \"~/\" (an extra condition on the remainder?): the shell sees the literal characters ~/ instead of the home directory")
+				}
 				continue
 			}
 			nPrefix++
